@@ -516,7 +516,17 @@ def run_cases(ctx, mon, cases, run_case, time_bound=None):
         except HarnessError:
             raise
         except Exception as exc:  # noqa: BLE001
-            if from_repo(exc.__traceback__):
+            if type(exc).__name__ == "ProbeAnomaly":
+                # a single add(key, 1) on an empty probe sketch touched no cell, or several cells, of a row
+                try:
+                    mon.evaluations += 1
+                    mon.fail("one-add-owns-one-cell-per-row", error=str(exc))
+                except CaseAbort:
+                    pass
+                except StopRun:
+                    mon.end_case()
+                    raise
+            elif from_repo(exc.__traceback__):
                 try:
                     mon.evaluations += 1
                     mon.fail("unexpected-exception", exc=f"{type(exc).__name__}: {exc}",
